@@ -276,11 +276,35 @@ func vhWireEnvelope(kind int, id string) envelope {
 
 var vhIDs = []string{"e0", "e1", "e2"}
 
+// vhCancelCtx: a caller's context that may be cancelled at any of its first few inspections.
+type vhCancelCtx struct {
+	cancelled bool
+	checks    int
+	maxChecks int
+}
+
+func (c *vhCancelCtx) Deadline() (time.Time, bool)       { return time.Time{}, false }
+func (c *vhCancelCtx) Done() <-chan struct{}             { return nil }
+func (c *vhCancelCtx) Value(key interface{}) interface{} { return nil }
+func (c *vhCancelCtx) Err() error {
+	if !c.cancelled && c.checks < c.maxChecks {
+		c.checks++
+		if nondetBool("ctx.cancelled") {
+			c.cancelled = true
+		}
+	}
+	if c.cancelled {
+		return context.Canceled
+	}
+	return nil
+}
+
 // HarnessC12Receive: the receiving end yields exactly the sent sequence, or an error.
 func HarnessC12Receive() {
 	in := vStreamNew("in")
 	conn := &vhFrameConn{in: in, maxTimeouts: vParam("timeouts", 2), maxFrag: vParam("frag", 2)}
-	t := vhNewTCP(conn, 1<<20)
+	// every frame is within the read limit
+	t := vhNewTCP(conn, 4096)
 	k := nondetRange("frames", 0, vParam("frames", 2))
 	var sent []envelope
 	garbageAt := -1
@@ -303,11 +327,26 @@ func HarnessC12Receive() {
 	}
 	vReach("c12:stream-prepared")
 	got := 0
+	errors := 0
+	abandoned := false
 	for j := 0; j < k+1; j++ {
-		env, err := t.Receive(context.Background())
+		var ctx context.Context = context.Background()
+		if j == 0 && vParam("cancel", 0) == 1 {
+			// the caller may give up on the first receive at any moment
+			ctx = &vhCancelCtx{maxChecks: 3}
+		}
+		env, err := t.Receive(ctx)
 		if err != nil {
 			vReach("c12:receive-error")
-			break
+			if cc, ok := ctx.(*vhCancelCtx); ok && cc.cancelled {
+				abandoned = true
+			}
+			errors++
+			if errors > 1 {
+				break
+			}
+			// keep using the transport after a failed receive: it must not make anything up
+			continue
 		}
 		vReach("c12:received-one")
 		vAssert(got < k, "c12:no-fabricated-envelope")
@@ -319,10 +358,10 @@ func HarnessC12Receive() {
 		got++
 	}
 	// without faults everything that was sent is received
-	if !conn.cut && garbageAt < 0 && conn.timeouts < conn.maxTimeouts {
+	if !conn.cut && garbageAt < 0 && conn.timeouts < conn.maxTimeouts && !abandoned {
 		vAssert(got == k, "c12:everything-sent-is-received")
 	}
-	if vStreamEOF(in) && got == k && !conn.cut && garbageAt < 0 && conn.timeouts < conn.maxTimeouts {
+	if vStreamEOF(in) && got == k && !conn.cut && garbageAt < 0 && conn.timeouts < conn.maxTimeouts && !abandoned {
 		vAssert(!t.Connected(), "c12:end-of-stream-marks-the-transport-disconnected")
 	}
 }
